@@ -57,6 +57,7 @@ fn stats_json(s: &sys::Stats) -> J {
         ("deferred_commits", J::Int(s.deferred as i64)),
         ("refused_chains", J::Int(s.refused_chains as i64)),
         ("stale_chains_skipped", J::Int(s.stale_chains as i64)),
+        ("commits_of_change_sets_kept_across_a_close", J::Int(s.cross_handle_commits as i64)),
         ("open_lock_retries", J::Int(s.lock_retries as i64)),
         ("max_keys_in_state", J::Int(s.max_keys as i64)),
         (
